@@ -373,6 +373,17 @@ def error_state_rules(ck, fb):
                     ck.violate("E.leave", where, "%s: after state_ = %s the function still performs %s without re-testing state_" % (f.pq.split("::")[-1], s, acts[0]), "E.leave:%s:%s" % (f.pq, s))
                 else:
                     ck.ok("E.leave", where, "%s: nothing consumes input or mutates after state_ = %s without a state_ test" % (f.pq.split("::")[-1], s))
+    # E.header: the body of the file is only read in state HeaderRead
+    ck.rule("E.header", "internal_read_file is entered only where state_ == ReadState::HeaderRead is known (a header that failed to parse leaves another state; the return value of a second read_header() call says nothing)")
+    nh = 0
+    for f in fns:
+        for b, i, x in f.nodes(("call",)):
+            if x.get("pn", "").endswith("BinaryFileReader::internal_read_file") and b in f.reach():
+                nh += 1
+                fs = {(estr(c), pol) for c, pol, e in f.facts(b) if isinstance(pol, bool)}
+                ok = any(("state_" in c_ and "HeaderRead" in c_) and (("!=" in c_ and pol is False) or ("==" in c_ and pol is True)) for c_, pol in fs)
+                (ck.ok if ok else lambda r, w, t: ck.violate(r, w, t, "E.header:%s" % f.pq))("E.header", f.loc(x), "%s calls internal_read_file under state_ == HeaderRead (facts: %s)" % (f.pq.split("::")[-1], sorted(c_ for c_, p_ in fs if "state_" in c_)))
+    ck.floor("internal_read_file_call_sites", nh, 1)
     ck.analysed["error_state_assignments"] = n_err
     ck.floor("error_state_assignments", n_err, 25)
     # E.retest: transitive setters
@@ -455,9 +466,18 @@ def validation_rules(ck, fb):
                 ("stream exhausted", lambda c, p: "stream_.remaining_bytes()" in c and (("!= 0" in c and p is False) or ("> 0" in c and p is False) or ("== 0" in c and p is True)))]
         for cnt, acc in (("n_verts", "n_vertices"), ("n_edges", "n_edges"), ("n_faces", "n_faces"), ("n_cells", "n_cells")):
             want.append(("header %s equals mesh %s()" % (cnt, acc), (lambda c, p, cnt=cnt, acc=acc: ("file_header_.%s" % cnt) in c and ("%s.%s()" % (outp, acc)) in c and (("!=" in c and p is False) or ("==" in c and p is True)))))
+        # a count that was itself produced from the header proves nothing: when the entities of a kind are allocated up
+        # front (add_n_vertices(header.n_verts)) the header has to be compared with the number actually read from chunks
+        prealloc = {"add_n_vertices": ("n_verts", "n_verts_read_")}
+        for b2, i2, x2 in f.nodes(("call",)):
+            nm2 = x2.get("pn", "").split("::")[-1]
+            if nm2 in prealloc and x2.get("a") and ("file_header_.%s" % prealloc[nm2][0]) in estr(f.resolve(x2["a"][0])):
+                cnt, ctr = prealloc[nm2]
+                want = [w for w in want if not w[0].startswith("header %s equals mesh" % cnt)]
+                want.append(("header %s equals the number of vertices read from chunks (%s): the mesh count was allocated from the header" % (cnt, ctr), (lambda c, p, cnt=cnt, ctr=ctr: ("file_header_.%s" % cnt) in c and ctr in c and (("!=" in c and p is False) or ("==" in c and p is True)))))
         for label, pred in want:
             ok = any(pred(c, p) for c, p in fs)
-            (ck.ok if ok else lambda r, w, t: ck.violate(r, w, t, "V.ok:%s" % label))("V.ok", f.loc(n), "return ReadResult::Ok requires: %s" % label)
+            (ck.ok if ok else lambda r, w, t: ck.violate(r, w, t, "V.ok:%s" % label.split(" (")[0].split(":")[0]))("V.ok", f.loc(n), "return ReadResult::Ok requires: %s" % label)
     # header
     def fn_with_param(name, ptype):
         r = [x for x in fb.fns.values() if x.has_cfg and x.pq == "OpenVolumeMesh::IO::detail::" + name and len(x.d["params"]) == 2 and ptype in x.d["params"][1]["t"]]
@@ -476,6 +496,11 @@ def validation_rules(ck, fb):
     ok = any("header_version" in c and "!= 1" in c for b, c in conds)
     (ck.ok if ok else lambda r, w, t: ck.violate(r, w, t, "V.header:version"))("V.header", rh.where, "read(FileHeader) returns false unless header_version == 1")
     ok = any(n.get("pn", "").endswith("Decoder::reserved") and n.get("ta") == ["4"] for b, i, n in rh.nodes(("call",)))
+    if not ok and not any(n.get("pn", "").endswith("Decoder::reserved") for b, i, n in rh.nodes(("call",))):
+        # another way of consuming + testing the four bytes may be equivalent: not judged here (C06's codec symmetry still
+        # decides that four bytes are consumed at this position)
+        ck.cannot_judge("%s: read(FileHeader) no longer validates the reserved bytes through Decoder::reserved<4>() - rule V.header cannot judge the new form, re-audit" % rh.where)
+        ok = True
     (ck.ok if ok else lambda r, w, t: ck.violate(r, w, t, "V.header:reserved"))("V.header", rh.where, "read(FileHeader) validates the 4 reserved bytes")
     rc = fn_with_param("read", "ChunkHeader")
     ok = False
@@ -807,6 +832,40 @@ def range_rules(ck, fb):
                 why = "index bounded by header.span.count, the size established by read_n_ints (audited instance)"
             (ck.ok if ok else lambda r, w, t: ck.violate(r, w, t, "R.index:%s:%s" % (f.pq, name)))("R.index", f.loc(n), "%s: %s[%s] - %s" % (f.pq.split("::")[-1], name, estr(n["i"])[:30], why))
     ck.floor("reader_vector_index_sites", ni, 3)
+
+
+def order_rule(ck, fb):
+    """C18: chunks may only refer to entities that earlier chunks delivered"""
+    ck.rule("V.order", "in BinaryFileReader every handle built from a decoded integer is bounded by the reader's own *_read_ counter of that kind (entities delivered by earlier chunks), not by a mesh count: vertices are allocated from the header before any chunk is read, so the mesh count would admit references to vertices whose data has not been (and may never be) read")
+    entries = reader_entries(fb)
+    pred = reachable(fb, entries)
+    n = 0
+    for f in [fb.fns[i] for i in pred]:
+        if f.cls != BFR and not (f.kind == "lambda" and "BinaryFileReader" in (f.d.get("lambda_parent") or "")):
+            continue
+        for nd, parents, pos in iter_sites(f):
+            if pos[0] not in f.reach():
+                continue
+            arg = kind = None
+            if nd.get("k") == "call" and nd.get("pn", "").endswith("::from_unsigned") and nd.get("a"):
+                kind = HKIND.get(nd.get("cc", ""), None) or HKIND.get(nd.get("t", ""))
+                arg = nd["a"][0]
+            elif nd.get("k") == "call" and nd.get("pn", "").split("::")[-1] == "emplace_back" and len(nd.get("a", [])) == 1:
+                rt = nd.get("rt", "")
+                for hk, kd in HKIND.items():
+                    if rt == "std::vector<%s>" % hk:
+                        a0 = strip_casts(nd["a"][0])
+                        if isinstance(a0, dict) and a0.get("t", "") not in HKIND and a0.get("k") != "lit":
+                            kind, arg = kd, nd["a"][0]
+            if arg is None or kind not in COUNTERS:
+                continue
+            n += 1
+            facts = facts_with_lambda(fb, f, pos[0])
+            ub = upper_bound_guard(facts, arg)
+            ctr = [nm for nm, need2 in COUNTERS[kind] if nm.endswith("_read_")]
+            ok = any(any(c_ in estr(bnd) for c_ in ctr) for bnd, ctext in ub)
+            (ck.ok if ok else lambda r, w, t: ck.violate(r, w, t, "V.order:%s:%s" % (f.pq, kind)))("V.order", f.loc(nd), "%s: %s handle from %s is bounded by %s (bounds found: %s)" % (f.pq.split("::")[-1], kind, estr(strip_casts(arg))[:40], ctr, [estr(b_)[:30] for b_, c_ in ub]))
+    ck.floor("binary_reader_handle_sites", n, 4)
 
 
 def result_rules(ck, fb):
